@@ -144,6 +144,8 @@ class Check(PropertyCheck):
         n_acc = 0
         probe = ["snap", "wsnap", "trace", "q current_time", "q available", "q unscheduled"]
 
+        offs = [sum(len(job) for job in jobs[:k]) for k in range(len(jobs))]
+
         def inject():
             nonlocal n_bad
             bad = gen.gen_invalid_request(rng, tr, M)
@@ -156,6 +158,18 @@ class Check(PropertyCheck):
                         [(mm, "bad_machine") for mm in range(M) if mm not in bms]
                 bm, bkind = rng.choice(cands)
                 bad = (bj, bp, bm, bkind)
+            alias_follow = None
+            if quiet and len(tr.ready()) >= 2 and rng.random() < 0.5:
+                # flat-index aliasing: a bad machine id chosen so that (a_bad * stride + m_bad) == (a_ok * stride + m_ok) for a
+                # valid request (a = operation id or job id, stride = number of machines or of jobs); the valid request follows
+                (oj, op_), (bj, bp) = rng.sample(tr.ready(), 2)
+                ok_m = rng.choice(jobs[oj][op_][0])
+                stride = rng.choice([M, M, len(jobs)])
+                a_ok, a_bad = (offs[oj] + op_, offs[bj] + bp) if rng.random() < 0.6 else (oj, bj)
+                bm = ok_m + (a_ok - a_bad) * stride
+                if bm not in jobs[bj][bp][0]:
+                    bad = (bj, bp, bm, "alias_machine")
+                    alias_follow = (oj, op_, ok_m)
             if bad and (quiet or rng.random() < 0.4):
                 # a "blind" rejected request: nothing is read between the previous dispatch and it (no query has filled any
                 # per-state memo), nothing right after it; the next VALID request follows at once.  Judged by: it must
@@ -164,7 +178,7 @@ class Check(PropertyCheck):
                 lines.append(f"disp {bad[0]} {bad[1]} {bad[2]}")
                 bad_kinds.add(bad[3])
                 n_bad += 1
-                return bad
+                return bad + ((alias_follow,) if alias_follow else ())
             if bad:
                 lines.extend(probe)
                 lines.append("mark injected " + bad[3])
@@ -174,11 +188,12 @@ class Check(PropertyCheck):
                 n_bad += 1
 
         reset_at = rng.randint(1, max(1, gen.num_ops(jobs) - 1)) if rng.random() < 0.35 else None
-        offs = [sum(len(job) for job in jobs[:k]) for k in range(len(jobs))]
         while not tr.done():
             blind = inject() if rng.random() < 0.6 else None
             j, p, m = gen.gen_valid_request(rng, tr)
-            if blind and rng.random() < 0.7:
+            if blind and len(blind) > 4:
+                j, p, m = blind[4]          # the valid request whose flat key the bad id aliases
+            elif blind and rng.random() < 0.7:
                 # the valid request right after a blind rejected one is RELATED to it: a neighbouring operation id (or the
                 # same job), on the machine the bad id aliases (modulo the number of machines) when that is eligible
                 bid = offs[blind[0]] + blind[1]
